@@ -85,6 +85,7 @@ type reportSeen struct {
 	op       op
 	role     string // witness | nonwitness-validator | outsider
 	signer   string
+	locker   string // text address in the report's Locker field
 	accepted bool
 	gen      int // generation of the tracker the report was aimed at (0: none existed)
 	slot     int // index of the reporter in the tracker's witness list (-1), filled in by endBlock
@@ -239,7 +240,7 @@ func (m *model) beginBlock() {
 }
 
 // applyTx feeds one delivered transaction (and its result code) to the model.
-func (m *model) applyTx(o op, x ext, name string, signer string, code uint32) {
+func (m *model) applyTx(o op, x ext, name string, signer, locker string, code uint32) {
 	acc := code == 0
 	if o.Kind != "report" || m.lastOp == "none" {
 		m.lastOp = o.Kind // the block's submission if it has one, else its (first) report
@@ -275,6 +276,13 @@ func (m *model) applyTx(o op, x ext, name string, signer string, code uint32) {
 		nt := &mTracker{Ext: o.Ext, Kind: o.Kind, Cur: x.Cur, Amount: x.Amount, Submitter: signer, Status: "ongoing", Name: name, Gen: 1}
 		if t != nil {
 			nt.Gen, nt.Minted, nt.Refunded = t.Gen+1, t.Minted, t.Refunded
+			if t.Status == "ongoing" && t.Wit != nil {
+				// (already reported above) the implementation overwrote an ongoing tracker: keep judging the
+				// new one against the same recorded witnesses instead of cascading into follow-up reports
+				k := len(t.Wit)
+				nt.Wit = t.Wit
+				nt.Seen, nt.EverYes, nt.EverNo, nt.Strict, nt.start = make([]int, k), make([]int, k), make([]int, k), make([]int, k), make([]int, k)
+			}
 		}
 		m.tr[o.Ext] = nt
 		m.byName[name] = o.Ext
@@ -291,7 +299,7 @@ func (m *model) applyTx(o op, x ext, name string, signer string, code uint32) {
 			m.nontriv = true
 		}
 	case "report":
-		rs := reportSeen{op: o, accepted: acc, slot: -1, signer: signer}
+		rs := reportSeen{op: o, accepted: acc, slot: -1, signer: signer, locker: locker}
 		if t := m.tr[o.Ext]; t != nil && t.Status == "ongoing" {
 			rs.gen = t.Gen
 		}
@@ -395,7 +403,9 @@ func (m *model) completing(id string, final string) *reportSeen {
 	return nil
 }
 
-func repFacts(r *reportSeen) string {
+// repFacts describes the completing report; the locker field is classified by what it actually names,
+// relative to the tracker's submitter.
+func (m *model) repFacts(t *mTracker, r *reportSeen) string {
 	if r == nil {
 		return "completing-report=none"
 	}
@@ -403,7 +413,21 @@ func repFacts(r *reportSeen) string {
 	if r.op.Wrong {
 		idx = "wrong"
 	}
-	return fmt.Sprintf("reporter=%s|index=%s|locker-field=%s", r.role, idx, r.op.Locker)
+	return fmt.Sprintf("reporter=%s|index=%s|locker-field=%s", r.role, idx, m.lockerClass(t, r))
+}
+
+func (m *model) lockerClass(t *mTracker, r *reportSeen) string {
+	switch {
+	case r.locker == t.Submitter:
+		return "submitter"
+	case r.locker == r.signer:
+		return "reporter"
+	case m.role(r.locker) == "third":
+		return "third-party"
+	case m.role(r.locker) == "U1" || m.role(r.locker) == "U2":
+		return "other-user"
+	}
+	return "other"
 }
 
 // endBlock compares the model with the committed state after a block.
@@ -496,14 +520,14 @@ func (m *model) endBlock(dump []harness.KV) error {
 			cr := m.completing(id, final)
 			yes, no := t.yesUpper(), t.noUpper()
 			m.count("completed." + t.Kind + "." + final)
-			if cr != nil && cr.op.Locker != "honest" && final == "success" && t.isLock() {
+			if cr != nil && cr.locker != t.Submitter && final == "success" && t.isLock() {
 				m.count("lock_completed_by_report_naming_another_beneficiary")
 			}
 			switch {
 			case t.isLock() && final == "success":
 				// (mint) threshold, once, exact amount, to the submitter
 				if !moreThanTwoThirds(yes, n) {
-					m.violate(fmt.Sprintf("C15|mint-below-threshold|op=report|kind=%s|witnesses=%s|%s", t.Kind, nClass(n), repFacts(cr)),
+					m.violate(fmt.Sprintf("C15|mint-below-threshold|op=report|kind=%s|witnesses=%s|%s", t.Kind, nClass(n), m.repFacts(t, cr)),
 						fmt.Sprintf("lock completed with %d success reports of %d recorded witnesses", yes, n))
 				}
 				t.Minted++
@@ -516,7 +540,7 @@ func (m *model) endBlock(dump []harness.KV) error {
 			case !t.isLock() && final == "failed":
 				// (redeem) refund only above the failure threshold, once, exact amount, to the owner
 				if !moreThanTwoThirds(no, n) {
-					m.violate(fmt.Sprintf("C15|refund-below-threshold|op=report|kind=%s|witnesses=%s|%s", t.Kind, nClass(n), repFacts(cr)),
+					m.violate(fmt.Sprintf("C15|refund-below-threshold|op=report|kind=%s|witnesses=%s|%s", t.Kind, nClass(n), m.repFacts(t, cr)),
 						fmt.Sprintf("redeem failed/refunded with %d failure reports of %d recorded witnesses", no, n))
 				}
 				t.Refunded++
@@ -636,7 +660,7 @@ func (m *model) explainMismatch(cur string, wrong []string, s *snapshot) {
 				} else if m.role(a) == "third" {
 					credited = "third-party-named-in-the-report"
 				}
-				m.violate(fmt.Sprintf("C15|mint-not-to-the-lock-submitter|op=report|kind=%s|credited=%s|%s", t.Kind, credited, repFacts(cr)),
+				m.violate(fmt.Sprintf("C15|mint-not-to-the-lock-submitter|op=report|kind=%s|credited=%s|%s", t.Kind, credited, m.repFacts(t, cr)),
 					fmt.Sprintf("the minted %v %s went to %s (%s), not to the account that submitted the lock", t.Amount, cur, a, m.role(a)))
 				return
 			}
